@@ -15,7 +15,7 @@ From Cell2V Require Import Common.Tac Common.ListX C04.Model C04.Spec.
 Definition ev_eqb (a b : ev) : bool :=
   match a, b with
   | EUnit, EUnit | EBad, EBad | EFull, EFull | EIdle, EIdle | ESleep, ESleep
-  | EBadChoice, EBadChoice | EStuck, EStuck => true
+  | EBadChoice, EBadChoice | EStuck, EStuck | EPanic, EPanic => true
   | ESent x, ESent y => Bool.eqb x y
   | EClosed x, EClosed y => Bool.eqb x y
   | ERan k c v ok, ERan k' c' v' ok' => Z.eqb k k' && Z.eqb c c' && Z.eqb v v' && Bool.eqb ok ok'
